@@ -211,7 +211,7 @@ def run(tier):
             chk.count("V3:refused:" + str(a.get("refused"))[:36])
         elif a["same"]:
             n_bisim += 1
-            chk.count("V3:same-law-for-all-n:" + lab)
+            chk.count(str(a.get("validator", "V3")) + ":same-law-for-all-n:" + lab)
         else:
             rec = {"case": c, "options": o, "pass": label, "kind": "one-step-bisimulation-fails", "detail": a.get("why")}
             fid = attribute(PROP, rec)
